@@ -334,9 +334,7 @@ func genChain(r *rand.Rand) []def {
 			allNames = append(allNames, "zz")
 			dd.hasSer = true
 			for k := r.Intn(4); k > 0; k-- {
-				if n := allNames[r.Intn(len(allNames))]; !repeats(append(append([]string{}, dd.ser...), n)) {
-					dd.ser = append(dd.ser, n)
-				}
+				dd.ser = append(dd.ser, allNames[r.Intn(len(allNames))]) // repeats included
 			}
 		}
 		_ = settable
